@@ -846,6 +846,7 @@ func (b *B) FirstHitScan(rule, construct, where string, fc *FC, hdr *ssa.BasicBl
 		if s.isBottom(v) {
 			continue // a panic: no value
 		}
+		v = fc.resolveAlongEdge(ee.From, ee.To, v)
 		v = fc.resolveExitPhis(l, ee.To, v)
 		as := []Assumption{{Cond: ee.Cond, True: true}}
 		switch {
@@ -970,8 +971,8 @@ func (b *B) ErrGuard(rule string, fc *FC, env *SpecEnv, errName, spec string) {
 // assumptions), resolved through the stores that reach the return.
 func (fc *FC) FieldAtExit(idx int, field string) *RF {
 	rets := fc.Ctx.Returns()
-	if len(rets) != 1 {
-		anchorFail("%s: %d reachable returns (need exactly one; add assumptions)", fc.X.W.FuncName(fc.Fn), len(rets))
+	if len(rets) == 0 {
+		anchorFail("%s: no reachable return", fc.X.W.FuncName(fc.Fn))
 	}
 	p := fc.Fn.Params[idx]
 	pt, ok := p.Type().Underlying().(*types.Pointer)
@@ -984,7 +985,17 @@ func (fc *FC) FieldAtExit(idx int, field string) *RF {
 	}
 	for i := 0; i < st.NumFields(); i++ {
 		if st.Field(i).Name() == field {
-			return fc.Sub(fc.cellValue(cellKey{p, i}, pt.Elem(), rets[0]))
+			if len(rets) == 1 {
+				return fc.Sub(fc.cellValue(cellKey{p, i}, pt.Elem(), rets[0]))
+			}
+			// several returns (an early `return` on one branch): the field's value at whichever
+			// return is taken, gated over the branch conditions on the way
+			i := i
+			v := fc.gatedReturns(fc.Fn.Blocks[0], 0, func(rt *ssa.Return) *RF { return fc.cellValue(cellKey{p, i}, pt.Elem(), rt) })
+			if v == nil {
+				anchorFail("%s: %d reachable returns and no gated value for the field at exit", fc.X.W.FuncName(fc.Fn), len(rets))
+			}
+			return fc.Sub(v)
 		}
 	}
 	anchorFail("no field %s", field)
